@@ -31,7 +31,10 @@ pub fn cookie_json(ts: u64, addr: &str, name: &str, uuid: u128, target: Option<&
 }
 
 fn facts<'a>(sc: &'a Scenario, plan: &Plan, has_enc: bool) -> Facts<'a> {
-    Facts { sc, intent: plan.intent, claimed: (plan.claimed_name.as_bytes().to_vec(), plan.claimed_uuid),
+    // the intent in force is the one of the first frame actually sent (a deviation may put another handshake first)
+    let first = sc.steps.iter().find_map(|s| match s { Step::Frame(p) => Some(p.clone()), _ => None });
+    let intent = first.as_deref().and_then(crate::conn::decode::handshake_next_state).unwrap_or(plan.intent);
+    Facts { sc, intent, claimed: (plan.claimed_name.as_bytes().to_vec(), plan.claimed_uuid),
         presented_auth: if plan.intent == 3 && sc.secret.is_some() { plan.auth_cookie.clone() } else { None },
         enc: if has_enc { Some(plan.enc.clone()) } else { None }, locale: Some(plan.locale.as_bytes().to_vec()),
         session_present: Some(match &plan.session_cookie { None => false, Some(p) => p != b"null" }) }
@@ -326,7 +329,8 @@ pub fn run_c07(a: &Args) {
         let lat = |rng: &mut Rng| *rng.pick(&[0u64, 0, 3_000, 17_000, 33_000, 70_000]).min(&(16_000 * max_periods as u64 / 2));
         let tci = *rng.pick(&[50u64, 5_000, 20_000, 40_000]).min(&(16_000 * (max_periods as u64 - 1)));
         let (l1, l2, l3) = (lat(&mut rng), lat(&mut rng), lat(&mut rng));
-        let done = [tci + 100 + l1 + 200, tci + 100 + l1 + 200 + l2 + 300, tci + 100 + l1 + 200 + l2 + 300 + l3 + 400];
+        // +37 ms: completions never coincide with a tick instant (all other offsets are multiples of 50 ms)
+        let done = [tci + 137 + l1 + 200, tci + 137 + l1 + 200 + l2 + 300, tci + 137 + l1 + 200 + l2 + 300 + l3 + 400];
         let end = done[2] + 500;
         let nticks = (end / 16_000) as usize;
         let bad_at = if rng.chance(2, 5) && nticks > 0 { Some(rng.below(nticks as u64) as usize) } else { None };
